@@ -36,7 +36,15 @@ let run (id : string) (_hdr : string list) (lines : string list list) (out : str
       let (w', res) = wal_append !w (n_of_int (int_of_string o)) (bytes_of_token k) (bytes_of_token v) in
       w := w'; pr ("A " ^ wres_str res); go r
     | ("seq" :: o :: s :: k :: v :: []) :: r ->
-      let (w', res) = wal_append_seq !w (n_of_int (op_of o)) (bytes_of_token k) (bytes_of_token v) (n_of_string s) in
+      let nxt = !w.wl_next in
+      let sq =
+        if s = "=" then nxt
+        else if Stdlib.String.length s > 1 && s.[0] = '+' then BinNat.N.add nxt (n_of_string (Stdlib.String.sub s 1 (Stdlib.String.length s - 1)))
+        else if Stdlib.String.length s > 1 && s.[0] = '-' then
+          (let d = n_of_string (Stdlib.String.sub s 1 (Stdlib.String.length s - 1)) in
+           if BinNat.N.leb d nxt then BinNat.N.sub nxt d else BinNums.N0)
+        else n_of_string s in
+      let (w', res) = wal_append_seq !w (n_of_int (op_of o)) (bytes_of_token k) (bytes_of_token v) sq in
       w := w'; pr ("A " ^ wres_str res); go r
     | ("batch" :: [n]) :: r ->
       let n = int_of_string n in
